@@ -105,7 +105,17 @@ func besselPreds(v, x float64, logv bool) []predEv {
 		ev = append(ev, predEv{pre + key, l, r, unit, t})
 		return t
 	}
-	cmp(top, "x<0", x, 0, 0, x < 0)
+	if cmp(top, "x<0", x, 0, 0, x < 0) {
+		if !cmp(top, "math.Floor(v)==v", math.Floor(v), v, 0.5, math.Floor(v) == v) {
+			return ev
+		}
+		odd := iroundH(v)&1 != 0
+		cmp(top, "iround(v)&1!=0", float64(iroundH(v)&1), 0, 1, odd)
+		if logv && odd {
+			return ev
+		}
+		return append(ev, besselPreds(v, -x, logv)...)
+	}
 	if cmp(top, "x==0.0", x, 0, 0, x == 0) {
 		return ev
 	}
@@ -119,8 +129,12 @@ func besselPreds(v, x float64, logv bool) []predEv {
 	if cmp(top, "v>0", v, 0, 0.5, v > 0) && cmp(top, "x/v<0.25", x/v, 0.25, 0, x/v < 0.25) {
 		return ev
 	}
-	cmp(ik, "v<0", v, 0, 0.5, v < 0)
 	av := math.Abs(v)
+	if cmp(ik, "v<0", v, 0, 0.5, v < 0) {
+		// reflection: z := u + float64(n % 2)
+		n := iroundH(av)
+		cmp(ik, "n%2", float64(n%2), 0, 1, n%2 != 0)
+	}
 	cmp(ik, "x<=2", x, 2, 0, x <= 2)
 	lim := (4*av*av + 10) / (8 * x)
 	lim *= lim
@@ -135,8 +149,17 @@ func besselPreds(v, x float64, logv bool) []predEv {
 	return ev
 }
 
+func iroundH(x float64) int {
+	if x < 0 {
+		return int(x - 0.5)
+	}
+	return int(x + 0.5)
+}
+
 func predsOf(a *Anchor) []predEv {
 	switch a.Fam {
+	case "sincospi":
+		return sinCosPreds(a.Fn, a.x)
 	case "igamma":
 		return igammaPreds(float64(a.H)/2, a.x, a.Fn == "GammaP" || a.Fn == "GammaQ", a.Fn == "GammaQ" || a.Fn == "GammaUpper")
 	case "bessel", "logbessel":
@@ -183,6 +206,15 @@ func predsOf(a *Anchor) []predEv {
 	case "polygamma":
 		x, n := a.x, float64(a.K)
 		lim := 0.4*15 + 4*n
+		if x < 0 {
+			isInt := math.Floor(x) == x
+			ev := []predEv{{"polygamma_imp|x<0.0", x, 0, 0.5, true}, {"polygamma_imp|math.Floor(x)==x", math.Floor(x), x, 0.5, isInt},
+				{"polygamma_imp|n&1==1", float64(a.K & 1), 1, 1, a.K&1 == 1}}
+			if !isInt {
+				ev = append(ev, predEv{"poly_cot_pi|index&1==1", float64((a.K - 1) & 1), 1, 1, (a.K-1)&1 == 1})
+			}
+			return ev
+		}
 		return []predEv{{"polygamma_imp|x<0.0", x, 0, 0.5, x < 0}, {"polygamma_imp|x<small_x_limit", x, math.Min(5/n, 0.25), 0.25, x < math.Min(5/n, 0.25)},
 			{"polygamma_imp|x>0.4*digitsBase10+4.0*float64(n)", x, lim, 0.5, x > lim}, {"polygamma_imp|x==1", x, 1, 0, x == 1}, {"polygamma_imp|x==0.5", x, 0.5, 0, x == 0.5}}
 	case "logerfc":
@@ -191,7 +223,25 @@ func predsOf(a *Anchor) []predEv {
 	case "zeta":
 		s := a.x
 		ev := []predEv{{"zeta_imp|sc==0", 1 - s, 0, 1, s == 1}, {"zeta_imp|s>float64(PrecisionFloat64)", s, 53, 1, s > 53},
-			{"zeta_imp|math.Floor(s)==s", math.Floor(s), s, 0.5, true}, {"zeta_imp|float64(v)==s", s, s, 0.5, true}, {"zeta_imp|v<0", s, 0, 1, s < 0}}
+			{"zeta_imp|math.Floor(s)==s", math.Floor(s), s, 0.5, math.Floor(s) == s}}
+		if math.Floor(s) == s {
+			v := int(s)
+			ev = append(ev, predEv{"zeta_imp|float64(v)==s", s, s, 0.5, true}, predEv{"zeta_imp|v<0", s, 0, 1, s < 0})
+			if v < 0 {
+				ev = append(ev, predEv{"zeta_imp|(-v&1)==1", float64(-v & 1), 1, 1, (-v&1) == 1})
+			} else {
+				ev = append(ev, predEv{"zeta_imp|(v&1)==0", float64(v & 1), 0, 1, (v&1) == 0})
+				if v&1 == 0 {
+					ev = append(ev, predEv{"zeta_imp|((v/2-1)&1)==1", float64((v/2 - 1) & 1), 1, 1, ((v/2-1)&1) == 1})
+				}
+			}
+			return ev
+		}
+		ev = append(ev, predEv{"zeta_imp|math.Abs(s)<rootEpsilon", math.Abs(s), 1.49012e-08, 0, false}, predEv{"zeta_imp|s<0", s, 0, 0.5, s < 0})
+		if s < 0 {
+			ev = append(ev, predEv{"zeta_imp|math.Floor(sc/2.0)==sc/2.0", math.Floor(s / 2), s / 2, 0.5, false},
+				predEv{"zeta_imp|s>float64(factorialMax)", 1 - s, 170, 1, 1-s > 170})
+		}
 		return ev
 	}
 	return nil
